@@ -17,7 +17,10 @@ def run(ctx):
               "(i) get_configuration() at depth i along the get_backend() chain equals the i-th configuration passed in, member-wise, down to the "
               "innermost layer; (ii) the same through make_parameter_pack_for<field_t>; (iii) a field rebuilt from the reported configurations "
               "plus a copy of the innermost storage has the same configurations and agrees with the reference interpreter at every proposed "
-              "in-domain coordinate.  Helper part: affine^k<identity<float2>> for k = 1..9 with a distinct matrix per layer, "
+              "in-domain coordinate; (iv) the same through every other constructor form the layers offer, generated per stack: layer k copied "
+              "whole under the outer configurations, layer k from (configuration, inner layer moved in), from (configuration, inner layer as "
+              "an lvalue), and for row-major/Morton layers from a NAMED storage object used for two rebuilds (second one checked) and from a "
+              "named const one.  Helper part: affine^k<identity<float2>> for k = 1..9 with a distinct matrix per layer, "
               "strided<size1, array<>> with extent != storage length (both nd_size<1>), and a 10-deep mixed stack - configuration types that "
               "coincide at adjacent positions are the only way a positional mix-up can compile.  non-trivial: stack of depth >= 2; "
               "distinct = hash of the stack description"),
